@@ -190,7 +190,8 @@ SPEC_DEFAULTS = {
     "golang": [("repository_url", "https://proxy.golang.org"), ("type", "module"), ("vcs_url", "git+https://github.com/a/b")],
 }
 # URL-looking text that a URL "normaliser" written by hand would trip over (brackets, empty parts, odd ports, mixed case)
-URL_ODD = ["https://ci]bot@[2001:DB8::1]:8443/simple", "git+ssh://a]b@[::1]/libc.git", "http://[::1", "http://]@[", "http://[", "http://@:/", "://", "a://[", "http://[::1]:",
+URL_ODD = ["https://example.com/a%20b.tgz", "https://r\u00e9po.example/x%C3%A9", "https://example.com/a%23b?q=%3C#f%3E", "http://h/%E2%82%AC%2F%25", "https://example.com/a b.tgz",
+           "https://ci]bot@[2001:DB8::1]:8443/simple", "git+ssh://a]b@[::1]/libc.git", "http://[::1", "http://]@[", "http://[", "http://@:/", "://", "a://[", "http://[::1]:",
            "http://user:pw@[v1.x]:99999/", "HTTPS://Registry.Example.COM/Simple/", "Git+SSH://git@GitHub.com:22/A/B.git", "Http://pypi.internal:80/simple", "https://example.com:443",
            "HTTP://EXAMPLE.COM:80", "ftp://EXAMPLE.org:21/x", "https://exa\u00e9mple.COM/", "https://xn--exmple-cua.com/", "HTTPS://@/", "https:///path", "https://host:/p", "//host/p",
            "mailto:User@Example.COM", "https://user@HOST@Host2/", "file:///C:/Path", "https://EXAMPLE.com.:443/", "https://example.com:0443/"]
